@@ -312,5 +312,7 @@ func main() {
 			os.Exit(3)
 		}
 	}
-	emit(endReport(len(specs)))
+	end := endReport(len(specs))
+	end.Canary = canaryDigests()
+	emit(end)
 }
